@@ -10,7 +10,7 @@ from collections import OrderedDict
 from pyworkers.worker import Worker, autoclose_active_children
 import pyworkers.worker as workermod
 
-from ..rt import Outcome, ev
+from ..rt import Outcome, ev, notrace, sym_eq, conc
 from ..xh import Harness
 from ..main import PropSpec
 
@@ -49,7 +49,7 @@ class SW(Worker):
         self.calls.append("wait")
         if not self.is_alive():
             return True
-        if self._coop:
+        if self._coop is True or sym_eq(self._coop, 1):
             self._alive = False
             return True
         return False
@@ -121,17 +121,25 @@ def _check_view(workers, label):
 
 
 def h_step(n, a0, a1, a2, a3, a4, a5, op, idx, c0, c1, c2, c3, c4, c5):
+    with notrace():
+        return _h_step(n, a0, a1, a2, a3, a4, a5, op, idx, c0, c1, c2, c3, c4, c5)
+
+
+def _h_step(n, a0, a1, a2, a3, a4, a5, op, idx, c0, c1, c2, c3, c4, c5):
     _reset()
+    n, op = conc(n, MAXN + 1), conc(op, 8)
+    if op in (4, 5):
+        idx = conc(idx, MAXN)      # lazily: an unused symbolic parameter must not fork paths
     alive = [a0, a1, a2, a3, a4, a5][:n]
     coop = [c0, c1, c2, c3, c4, c5][:n]
     workers = []
     for i in range(n):
-        w = SW(True, coop=(coop[i] == 1), run=True)
+        w = SW(True, coop=coop[i], run=True)     # kept symbolic; decided lazily in wait()
         workers.append(w)
     # arbitrary reachable pre-state: registered while alive, some have died since
     ndead = 0
     for i in range(n):
-        if alive[i] == 0:
+        if sym_eq(alive[i], 0):
             workers[i]._alive = False
             ndead += 1
     interesting = ndead > 0
